@@ -22,3 +22,16 @@ package quote
 //@ before append#0 assert[onebyte] c < 128 || !multibyte
 //@ before EncodeRune#0 assert[utf8] c >= 128 && multibyte
 //@ loop 0 decreases len(s)
+
+// Bquote (C17): the text produced by strconv.Quote loses exactly its two delimiters — one byte at each end —
+// after the separators were escaped; a payload quote at either end is not touched.
+//@ extern strconv Quote
+//@ pure
+//@ extern bytes ReplaceAll
+//@ pure
+//@ extern bytes ContainsRune
+//@ pure
+//@ func Bquote
+//@ flag skip frame
+//@ after if#1 let q = s
+//@ before ReplaceAll#2 assert[strip] len(q) >= 2 && ref(s) == ref(q) && off(s) == off(q) + 1 && len(s) == len(q) - 2
